@@ -57,6 +57,7 @@ def gen_restype(g, name, atypes, idx, allow_vs=True, allow_angles=True, max_atom
                 angles.append([nb[0], b, nb[1], g.choice([100, 120, 140, 180]), 50])
                 break
     impropers = []
+    propers = []
     if n == 4 and shape != "ring" and not impossible and g.random() < improper_p:
         # harmonic improper (GROMACS type 2) with a non-planar reference: fixes the handedness of the centre
         if shape == "chain":
@@ -64,6 +65,9 @@ def gen_restype(g, name, atypes, idx, allow_vs=True, allow_angles=True, max_atom
         else:
             quad = [0, 1, 2, 3]
         impropers.append([quad[0], quad[1], quad[2], quad[3], g.choice([35.26, -35.26, 20.0, -25.0]), 300])
+        if g.random() < 0.4:
+            # GROMOS/ATB style: a proper dihedral on the same four atoms listed right after the improper
+            propers.append([quad[0], quad[1], quad[2], quad[3], g.choice([1, 9]), g.choice([0.0, 180.0]), 1.8, g.choice([1, 2, 3])])
     conflict = False
     if conflict_p and n == 4 and not impossible and g.random() < conflict_p:
         # a centre bound to three atoms with planar 120 degree angles AND a strongly pyramidal improper: the stage
@@ -74,6 +78,7 @@ def gen_restype(g, name, atypes, idx, allow_vs=True, allow_angles=True, max_atom
         constraints[:] = []
         angles[:] = [[1, 0, 2, 120, 500], [1, 0, 3, 120, 500], [2, 0, 3, 120, 500]]
         impropers[:] = [[0, 1, 2, 3, g.choice([60.0, -60.0, 55.0]), 200]]
+        propers[:] = []
         shape = "tree"
         conflict = True
     strained = False
@@ -125,7 +130,7 @@ def gen_restype(g, name, atypes, idx, allow_vs=True, allow_angles=True, max_atom
         pass
     return {"vs3_before_vs2": len(vsites) == 2, "vs_zero_mass": bool(vsites) and g.random() < 0.5, "name": name, "atoms": atoms, "bonds": bonds, "constraints": constraints,
             "angles": angles, "vsites": vsites, "blen": blen, "impossible": impossible, "impropers": impropers,
-            "strained": strained, "conflict": conflict}
+            "strained": strained, "conflict": conflict, "propers": propers}
 
 
 # ----------------------------------------------------------------------------- molecule types
@@ -173,6 +178,12 @@ def gen_moltype(g, name, restypes, shape=None, nres=None, maxres=10):
 
 
 # ----------------------------------------------------------------------------- rendering
+def file_resid(mt, r):
+    """residue number written for residue index r (0-based) of the molecule type"""
+    k = mt.get("resid_restart")
+    return r + 1 if (k is None or r < k) else r - k + 1
+
+
 def expand_moltype(mt, restypes):
     """atom table + interaction lines of one moleculetype.
     Returns (atoms, sections) with atoms = [(id, atype, resid, resname, atomname)]"""
@@ -192,7 +203,7 @@ def expand_moltype(mt, restypes):
         ids = []
         for a in rt["atoms"]:
             aid = len(atoms) + 1
-            atoms.append((aid, a["atype"], r + 1, rname, a["name"]))
+            atoms.append((aid, a["atype"], file_resid(mt, r), rname, a["name"]))
             ids.append(aid)
         res_atom_ids[r] = ids
     sec = {"dihedrals": [], "bonds": [], "constraints": [], "angles": [], "virtual_sitesn": [],
@@ -208,6 +219,8 @@ def expand_moltype(mt, restypes):
             sec["angles"].append(f"{ids[a]} {ids[b]} {ids[c]} 1 {th} {k}")
         for a, b, c, d, q0, k in rt.get("impropers", []):
             sec["dihedrals"].append(f"{ids[a]} {ids[b]} {ids[c]} {ids[d]} 2 {q0} {k}")
+        for a, b, c, d, f, phi, k, mult in rt.get("propers", []):
+            sec["dihedrals"].append(f"{ids[a]} {ids[b]} {ids[c]} {ids[d]} {f} {phi} {k} {mult}")
         nreal = len(rt["atoms"]) - len(rt["vsites"])
         for v, vs in enumerate(rt["vsites"]):
             site = ids[nreal + v]
